@@ -1461,6 +1461,10 @@ func (x *fx) ret(i *ssa.Return) {
 		ord := x.returnOrdinal(i)
 		for k, cl := range x.c.Asserts {
 			if cl.Kind == "assert:return$" && cl.Loop == ord {
+				if x.assertSeen == nil {
+					x.assertSeen = map[int]bool{}
+				}
+				x.assertSeen[k] = true
 				g, skip := x.evalEnsures(cl.E, env)
 				if skip {
 					continue
